@@ -738,4 +738,30 @@ theorem dedup_fixpoint (pred : Node → Node → Bool) (hr : ∀ a, pred a a = t
   simp only [dedupGraph, transform, dedup_run_distinct pred out hwf hdis, sinksOf_range _ _ hlt]
   rw [dedupFin_ok pred hr out hwf hdis _ hlt, uniq_idem]
 
+
+/-- `__find_node` iterates a Python set: with `same_payload` at most one stored node matches, so the
+iteration order is immaterial (and `findIdx?` models it). -/
+theorem dedup_match_unique (out : List Node) (hwf : WFNodes out) (hd : Distinct samePayload out) (n : Node)
+    (a b : Nat) (x y : Node) (hx : out[a]? = some x) (hy : out[b]? = some y)
+    (hax : sameNode samePayload n x = true) (hby : sameNode samePayload n y = true) : a = b := by
+  have key : ∀ (a b : Nat) (x y : Node), a < b → out[a]? = some x → out[b]? = some y →
+      sameNode samePayload n x = true → sameNode samePayload n y = true → False := by
+    intro a b x y hab hx hy hax hby
+    have hdis := hd a b x y hab hx hy
+    simp only [sameNode, samePayload, Bool.and_eq_true, beq_iff_eq] at hax hby
+    obtain ⟨⟨ho1, hi1⟩, hp1⟩ := hax
+    obtain ⟨⟨ho2, hi2⟩, hp2⟩ := hby
+    have hnd := (wf_get out hwf b y hy).1
+    have : sameNode samePayload y x = true := by
+      simp only [sameNode, samePayload, Bool.and_eq_true, beq_iff_eq]
+      refine ⟨⟨by rw [← ho2, ho1], ?_⟩, by rw [← hp2, hp1]⟩
+      apply sameInputs_of_lookup _ _ hnd
+      intro k
+      rw [← sameInputs_lookup _ _ hi2 k, sameInputs_lookup _ _ hi1 k]
+    rw [this] at hdis; cases hdis
+  rcases Nat.lt_trichotomy a b with h | h | h
+  · exact (key a b x y h hx hy hax hby).elim
+  · exact h
+  · exact (key b a y x h hy hx hby hax).elim
+
 end EkwVerif.Graph.Aux
